@@ -13,7 +13,7 @@ from sim import rng
 from sim.base import BaseCheck
 from models import orderedmap as om
 
-KEYS = ['a', 'b', 'c', 'd', 'e']
+KEYS = ['a', 'b', 'c', 'd', 'e'] + ['k%02d' % i for i in range(40)]
 ABSENT = 'zz'
 MUTATORS = ('set', 'add', 'del', 'pop', 'pop_at', 'popitem', 'setdefault', 'update', 'clear',
             'sort', 'reverse', 'append', 'extend')
@@ -86,7 +86,7 @@ class C16(BaseCheck):
         r = rng.stream(run_seed, 'ops')
         k = rng.stream(run_seed, 'knobs')
         cls = k.choice(['sd', 'sd', 'mo', 'mo', 'gmeta', 'cmeta', 'gcols'])
-        nkeys = k.choice([3, 3, 4, 4, 5])
+        nkeys = k.choice([3, 3, 4, 4, 5, 5, 9, 17, 33])     # mostly tiny (collisions), sometimes past any small-size fast path
         keys = KEYS[:nkeys]
         case = {'class': cls, 'nkeys': nkeys}
         if cls in ('sd', 'mo') and k.random() < 0.3:
@@ -98,7 +98,7 @@ class C16(BaseCheck):
         else:
             case['gver'] = k.choice([None, '2.0', '2.0', '3.0'])
             case['init_as'] = k.choice(['pairs', 'dict', 'sd', 'none'])
-        ninit = k.choice([0, 0, 1, 2, 3, nkeys])
+        ninit = k.choice([0, 0, 1, 2, 3, nkeys, nkeys])
         init_keys = keys[:]
         k.shuffle(init_keys)
         case['init'] = [[kk, 10 + j] for j, kk in enumerate(init_keys[:ninit])]
